@@ -64,6 +64,7 @@ func (d *deduplicationStrategy) eval(
 	del := make([][]byte, 0)
 	var rewriteKeys [][]byte
 	var rewriteValues [][]byte
+	var rewriteExpected [][]byte
 	// first, check if the whole entity is equal to the previous entity
 	isDuplicate := false
 	if server.IsEntityEqual(d.prevEntityBytes, entityBytes, d.prev, e) {
@@ -77,6 +78,7 @@ func (d *deduplicationStrategy) eval(
 			latestKey := mkLatestKey(jsonKey)
 			rewriteKeys = append(rewriteKeys, latestKey)
 			rewriteValues = append(rewriteValues, d.prevJsonKey)
+			rewriteExpected = append(rewriteExpected, jsonKey)
 		}
 
 		// 3.delete change log entry (need to iterate over all change versions, match value with json key)
@@ -144,6 +146,7 @@ func (d *deduplicationStrategy) eval(
 		if len(rewriteKeys) > 0 {
 			res.RewriteKeys = rewriteKeys
 			res.RewriteValues = rewriteValues
+			res.RewriteExpected = rewriteExpected
 		}
 		return res, nil
 	}
